@@ -98,8 +98,8 @@ def run(ctx):
     vlib.write_jsonl(trace, [dict(e, sc=1) for e in ([{"ev": "scenario"}] + work + events + [{"ev": "end"}])])
     accepted, scs, lines = ctx.validate(trace, "TraceSync", stateful=True, shards=1, constants="CONSTANT Diagnose = FALSE\n")
     mixes = [e for e in events if e["ev"] == "mix"]
-    cov = {k: sum(m[k] for m in mixes) for k in ("connects", "cmds", "cfgset", "cfgget", "polls", "restarts", "stops", "authed")} if mixes else {}
-    if mixes and min(cov["cfgset"], cov["cfgget"], cov["polls"], cov["restarts"] + cov["stops"], cov["connects"]) == 0:
+    cov = {k: sum(m[k] for m in mixes) for k in ("connects", "cmds", "cfgset", "cfgget", "polls", "restarts", "stops", "authed", "tlsconns", "patterns")} if mixes else {}
+    if mixes and min(cov["cfgset"], cov["cfgget"], cov["polls"], cov["restarts"] + cov["stops"], cov["connects"], cov["tlsconns"], cov["patterns"]) == 0:
         raise vlib.Inconclusive("workload did not exercise every access class: %s" % cov)
     outside = 0
     for e in events:
